@@ -110,7 +110,7 @@ func (ex *Exec) specTry(sc *specCtx, c *Clause) (*T, bool) {
 	drift := false
 	for _, e := range ex.errs[nerr:] {
 		if strings.Contains(e, "unknown identifier") || strings.Contains(e, "no field ") || strings.Contains(e, "has no value") ||
-			strings.Contains(e, "not a known builder") || strings.Contains(e, "not available") || strings.Contains(e, "index of non-slice") || strings.Contains(e, "of non-struct") {
+			strings.Contains(e, "not a known builder") || strings.Contains(e, "not available") || strings.Contains(e, "index of non-slice") || strings.Contains(e, "of non-struct") || strings.Contains(e, "comparison of different sorts") || strings.Contains(e, "is not boolean") {
 			drift = true
 			ex.warnings["contract clause not evaluable on this code: "+e] = true
 			continue
